@@ -1287,6 +1287,42 @@ fn run_c12(r: &mut RunResult, prop: &str, idx: u64, seed: u64, rng: &mut Rng, ti
                     }
                 }
             }
+            // "A, B fails, A again": state that A left behind and B's failure did not clean up.
+            // When a fault hits a drawing call that follows a solid fill, let the failing call
+            // start with the fill's colour and repeat the fill right after it.
+            let mut post: Vec<(usize, Op)> = Vec::new();
+            for f in &case.faults {
+                if let Some(j) = dry.op_llops.iter().position(|r| f.llop >= r.0 && f.llop < r.1) {
+                    if j == 0 || !rg.coin() {
+                        continue;
+                    }
+                    let fill = match &case.program[j - 1] {
+                        Op::FillSolid { c, .. } | Op::Clear { c } => Some(*c),
+                        _ => None,
+                    };
+                    if let Some(c0) = fill {
+                        let same_shape = match &mut case.program[j] {
+                            Op::SetPixel { c, .. } => {
+                                *c = c0;
+                                true
+                            }
+                            Op::SetPixels { colors: Colors::List(l), .. } | Op::FillContiguous { colors: Colors::List(l), .. } if !l.is_empty() => {
+                                l[0] = c0;
+                                true
+                            }
+                            Op::DrawIter { pixels } if !pixels.is_empty() => {
+                                pixels[0].2 = c0;
+                                true
+                            }
+                            _ => false,
+                        };
+                        if same_shape {
+                            post.push((j + 1, case.program[j - 1].clone()));
+                        }
+                    }
+                }
+            }
+            inserts.extend(post);
             inserts.sort_by(|a, b| b.0.cmp(&a.0));
             for (at, op) in inserts {
                 case.program.insert(at, op);
